@@ -379,6 +379,7 @@ type Res struct {
 	Endpoint string   `json:"ep"`
 	RecKeys  []string `json:"rk"`
 	Keys     []string `json:"keys"`
+	Routing  []string `json:"routing"`
 }
 
 func (r Res) String() string {
@@ -386,7 +387,7 @@ func (r Res) String() string {
 		return "unresolved"
 	}
 
-	return r.Endpoint + "|" + strings.Join(r.RecKeys, ",") + "|" + strings.Join(r.Keys, ",")
+	return r.Endpoint + "|" + strings.Join(r.RecKeys, ",") + "|" + strings.Join(r.Keys, ",") + "|" + strings.Join(r.Routing, ",")
 }
 
 // Resolve resolves a DID through the agent's VDR registry.
@@ -405,6 +406,11 @@ func docRes(doc *did.Doc) Res {
 	if dest, err := service.CreateDestination(doc); err == nil {
 		out.Endpoint, _ = dest.ServiceEndpoint.URI()
 		out.RecKeys = append(out.RecKeys, dest.RecipientKeys...)
+		out.Routing = append(out.Routing, dest.RoutingKeys...)
+
+		if rk, e := dest.ServiceEndpoint.RoutingKeys(); e == nil {
+			out.Routing = append(out.Routing, rk...)
+		}
 	}
 
 	for i := range doc.VerificationMethod {
